@@ -388,7 +388,9 @@ def scripted_wsgi(counter, start_at, status, headers, chunks, err, form):
 
     def app(environ, start_response):
         counter.n += 1
-        form_ = form if (not err and start_at in (0, None)) else "g"
+        # form i (an iterator object WITHOUT close(), e.g. a class-style app or iter(read, b"")) goes with every
+        # script; the list / tuple / restart forms only with scripts that start at once and do not raise
+        form_ = form if (form == "i" or (not err and start_at in (0, None))) else "g"
         if form_ == "x":
             if start_at == 0:
                 restart(start_response)
@@ -1240,6 +1242,8 @@ def cases(rng, tier):
                             yield mk_wsgi(hs, start_at, status, headers, chunks, err)
                     for form in ("l", "t", "i", "x"):
                         yield mk_wsgi(hs, 0, status, headers, chunks, None, form)
+                    for start_at in (0, 1, None):
+                        yield mk_wsgi(hs, start_at, status, headers, chunks, "Boom", "i")
     # exhaustive small domain, ASGI
     for hs in SMALL_STACKS:
         for events in SMALL_EVENTS:
